@@ -4,6 +4,7 @@
   every execution step changes `chk` maps only.
 -/
 import RigoProofs.C06View
+import RigoProofs.TxRecv
 
 namespace Rigo
 namespace C06
@@ -182,8 +183,8 @@ theorem runTrx_false {s s2 : St} {ht : Int} {tx : TxIn} {rcv : Account} {g : Nat
          · exact execEvm_false hr
          · exact execTransfer_false hr)
 
-theorem handleTx_false (s : St) (ht : Int) (tx : TxIn) : eraseChk (handleTx s false ht tx).1 = eraseChk s := by
-  unfold handleTx
+theorem handleTxOld_false (s : St) (ht : Int) (tx : TxIn) : eraseChk (handleTxOld s false ht tx).1 = eraseChk s := by
+  unfold handleTxOld
   simp only []
   have h0 := findOrNewAcct_false s tx.to
   repeat' split
@@ -197,6 +198,11 @@ theorem handleTx_false (s : St) (ht : Int) (tx : TxIn) : eraseChk (handleTx s fa
     | (have hv := ‹validateTrx _ false _ _ _ _ = Except.ok _›
        show eraseChk _ = _
        rw [validateTrx_false hv]; exact h0)
+
+theorem handleTx_false (s : St) (ht : Int) (tx : TxIn) : eraseChk (handleTx s false ht tx).1 = eraseChk s := by
+  by_cases hl : byteLen tx.to = 20
+  · rw [handleTx_goodlen hl]; exact handleTxOld_false s ht tx
+  · rw [handleTx_badlen_fst hl]
 
 /-- CheckTx leaves the consensus view alone (for EVERY state and transaction) -/
 theorem checkTx_consEq (s : St) (tx : TxIn) : consEq (checkTx s tx).1 s := by
